@@ -91,10 +91,12 @@ theorem init_rel (c : Cfg) (hb : 0 ≤ c.base) :
       rw [hc] at hv'
       simp only [Option.map_some, Option.some.injEq] at hv'
       subst hv'
-      refine ⟨?_, Or.inl ?_, fun f hf => by cases hf⟩
+      refine ⟨?_, Or.inl ?_, fun f hf => (by cases hf), ⟨0, ?_, fun hd => absurd rfl hd⟩⟩
       · show (if vc.evented && vc.default.isSome then (0 : Int) else -c.base) ≤ 0
         split <;> omega
       · show ((c.vars.map (·.default)).map (fun _ => (none : Option Int)))[i]? = some none
+        simp [List.getElem?_map, hc]
+      · show ((c.vars.map (·.default)).map (fun _ => (0 : Nat)))[i]? = some 0
         simp [List.getElem?_map, hc]
   · intro s hs; cases hs
   · intro k sm hk; cases hk
@@ -137,8 +139,9 @@ theorem no_overdue_timer (m : State) (j : Mon) (dt : Nat) (h : Rel m j) (hn : j.
   exact ((step_ok m j (.adv dt) h hn).vars i v hv).dfr f hf |>.2.2.2
 
 /-- **What acceptance means for moderation** (any trace, the implementation's included): if the judge accepts
-    a trace in which variable x triggers an event at t1 and later at t2, the two are at least x's moderation
-    interval apart — "at most one event per variable per moderation interval". -/
+    a trace in which an event is attributed to variable x at t1 and later another at t2, the two are at least
+    x's moderation interval apart — "at most one event per variable per moderation interval".  (The `trig`
+    items are the attribution the judge verified: see J4/J5 in `Spec/C15.lean`.) -/
 theorem accepted_moderation (ev : List Bool) (rate : List Nat) (dflt : List (Option Val))
     (pre mid post : List Item) (x : Nat) (t1 t2 : Int)
     (h : ok ev rate dflt (pre ++ Item.obs (.trig x t1) :: (mid ++ Item.obs (.trig x t2) :: post)) = true) :
@@ -159,22 +162,27 @@ theorem accepted_moderation (ev : List Bool) (rate : List Nat) (dflt : List (Opt
     rw [hjp]
     exact ClockInv.foldl pre _ ⟨Int.le_refl _, rfl⟩ (by rw [← hjp]; exact hp)
   -- the first trigger
-  have hA' : (jp.onObs (.trig x t1)).ok = true := hA
-  simp only [Mon.onObs, Bool.and_eq_true, timeOk, decide_eq_true_eq] at hA'
+  obtain ⟨_, _, l3, l4, l5⟩ := lapse_frame jp t1
+  have hA' : ((jp.lapse t1).trigAt x t1).ok = true := hA
+  simp only [Mon.trigAt, Bool.and_eq_true, timeOk, decide_eq_true_eq] at hA'
   obtain ⟨⟨_, _, ht2⟩, _, hmatch⟩ := hA'
+  rw [l3] at ht2
+  rw [l4] at hmatch
   have hlt : x < jp.lastTrig.length := by
     cases hl : jp.lastTrig[x]? with
     | none => rw [hl] at hmatch; cases hmatch
     | some _ => exact (List.getElem?_eq_some_iff.mp hl).1
   have ia : TrigInv rate x t1 (jp.step (.obs (.trig x t1))) :=
-    ⟨ht2, cp.rate, ⟨t1, by show (jp.lastTrig.set x (some t1))[x]? = _; rw [List.getElem?_set_self hlt],
+    ⟨by show t1 ≤ (jp.lapse t1).target; rw [l3]; exact ht2, by show (jp.lapse t1).rate = rate; rw [l5]; exact cp.rate,
+      ⟨t1, by show ((jp.lapse t1).lastTrig.set x (some t1))[x]? = _; rw [l4, List.getElem?_set_self hlt],
       Int.le_refl _, Int.le_refl _⟩⟩
   have im : TrigInv rate x t1 jm := by
     rw [hjm]; exact TrigInv.foldl mid _ ia (by rw [← hjm]; exact hm)
   obtain ⟨u, hu, hu1, _⟩ := im.last
   -- the second trigger
-  have hB' : (jm.onObs (.trig x t2)).ok = true := hB
-  simp only [Mon.onObs, Bool.and_eq_true, hu, decide_eq_true_eq, im.rate] at hB'
+  obtain ⟨_, _, _, m4, m5⟩ := lapse_frame jm t2
+  have hB' : ((jm.lapse t2).trigAt x t2).ok = true := hB
+  simp only [Mon.trigAt, Bool.and_eq_true, m4, m5, hu, decide_eq_true_eq, im.rate] at hB'
   have := hB'.2.2
   omega
 
@@ -268,6 +276,12 @@ example : J 0 [exSub, ex200 0, exN 0 0 0 0, .op (.setKey 0 4294967295), .op (.se
     exN 0 4294967295 0 5, .op (.set 0 (.int 6)), .obs (.trig 0 0), exN 0 0 0 6] = false := by decide
 -- J4: NOTIFY without a trigger
 example : J 0 [exSub, ex200 0, exN 0 0 0 0, .op (.set 0 (.int 5)), exN 0 1 0 5] = false := by decide
+-- J4: an attribution needs an unanswered change of that variable, and pays only at its own instant
+example : J 0 [exSub, ex200 0, exN 0 0 0 0, .obs (.trig 0 0), exN 0 1 0 0] = false := by decide
+example : J 0 [exSub, ex200 0, exN 0 0 0 0, .op (.set 0 (.int 5)), .obs (.trig 0 0), exN 0 1 0 5, .obs (.trig 0 0), exN 0 2 0 5]
+    = false := by decide
+example : J 0 [exSub, ex200 0, exN 0 0 0 0, .op (.set 0 (.int 5)), .op (.adv 7), .obs (.trig 0 0), exN 0 1 7 5] = false := by
+  decide
 -- J5: two triggers of one variable inside its interval
 example : J 200000 [exSub, ex200 0, exN 0 0 0 0, .op (.set 0 (.int 5)), .obs (.trig 0 0), exN 0 1 0 5, .op (.adv 100000),
     .op (.set 0 (.int 6)), .obs (.trig 0 100000), exN 0 2 100000 6] = false := by decide
